@@ -101,7 +101,27 @@ func (z *czGen) next(rng *rand.Rand, i int) czCase {
 	return cs
 }
 
-var czCorpus = []czCase{
+// czTable: every kind of single-character loop against every kind of continuation canBeMadeAtomic
+// distinguishes (and the ones it must reject), bare and with something after, with and without Multiline.
+func czTable() []czCase {
+	loops := []string{"a*", "a+", `\n*`, `\n+`, "[^a]*", `[^\n]*`, "[ab]*", "[ab]+", `\w+`, `\w*`, `\s*`, `\d+`, `[\n-]+`, "-+", `\W+`, `\D+`, "a*?", "[ab]*?", `\s+?`, "a{1,3}", "[^a]+"}
+	conts := []string{"a", "b", `\n`, "-", "[ab]", "[bc]", "[^a]", "[^b]", "ab", "ba", `\nx`, "a+", "b+", "a*c", "b*c", "b*a", "b*", "[ab]*c", "[cd]*a", "[cd]*",
+		`\z`, `\Z`, "$", `\b`, `\B`, `\bx`, `\Bx`, `\b-`, `\B-`, `$\n`, `\Z\n`, "(?:b|c)", "(?:a|c)", "(?:b*|c)", "(b)", "(?>b)", "(?=b)", "(?=a)", "(?!b)", "b?c", `\s*x`, `\w*-`, ""}
+	var out []czCase
+	for _, l := range loops {
+		for _, k := range conts {
+			for _, o := range []regexp2.RegexOptions{0, regexp2.Multiline} {
+				if o != 0 && !strings.Contains(k, "$") {
+					continue
+				}
+				out = append(out, czCase{Pattern: strings.ReplaceAll("x"+l+k, `\\`, `\`), Opts: int32(o), Source: "table"})
+			}
+		}
+	}
+	return out
+}
+
+var czCorpus = append([]czCase{
 	{Pattern: `a*b`, Source: "corpus"},
 	{Pattern: `a*?b`, Source: "corpus"},
 	{Pattern: `a*b*c*`, Source: "corpus"},
@@ -119,7 +139,7 @@ var czCorpus = []czCase{
 	{Pattern: `-+\B`, Source: "corpus"},             // KF2
 	{Pattern: `\W+\B`, Source: "corpus"},            // KF2
 	{Pattern: `-+\Bx`, Source: "corpus"},
-}
+}, czTable()...)
 
 // the leaf tests of a tree S-expression, in order of first appearance; loops: the tests that sit directly
 // under a quant
